@@ -258,7 +258,10 @@ func c18Case(c *Ctx, i int64) {
 			}
 			for variant := 0; variant < 3; variant++ {
 				withData := variant == 1
-				src := &crSource{Source: &gen.Source{Data: data, FailAt: k, FailData: withData, Budget: 100000}}
+				// the look of the error value rotates: an error of its own, one that wraps io.EOF or
+				// io.ErrUnexpectedEOF, and the bare io.ErrUnexpectedEOF of a truncated upstream
+				ek := (k + variant + int(base)) % gen.NumErrKinds
+				src := &crSource{Source: &gen.Source{Data: data, FailAt: k, FailData: withData, ErrKind: ek, Budget: 100000}}
 				if variant == 2 {
 					// a transient failure (only this call fails, with no data) of a source that makes short reads:
 					// the block being filled already holds data when the error arrives
@@ -272,7 +275,8 @@ func c18Case(c *Ctx, i int64) {
 				if res.panicky {
 					continue
 				}
-				det := map[string]interface{}{"opts": o.String(), "srclen": len(data), "fail_at_source_call": k, "with_data": withData, "transient": variant == 2}
+				det := map[string]interface{}{"opts": o.String(), "srclen": len(data), "fail_at_source_call": k, "with_data": withData, "transient": variant == 2, "error_kind": []string{"plain", "wraps io.EOF", "wraps io.ErrUnexpectedEOF", "bare io.ErrUnexpectedEOF"}[ek]}
+				ekName := []string{"plain", "wraps-eof", "wraps-unexpected-eof", "bare-unexpected-eof"}[ek]
 				var want *gen.InjErr
 				if len(src.Errs) > 0 {
 					want = src.Errs[0]
@@ -283,13 +287,19 @@ func c18Case(c *Ctx, i int64) {
 				case res.badCall != "":
 					c.Violation("per-call-contract/source-fault", res.badCall, det)
 				case res.err == nil:
-					c.Violation("source-error-swallowed", fmt.Sprintf("the source failed at its call %d but the compressing reader ended with io.EOF [%s, source %d bytes]", k, o, len(data)), det)
+					key := "source-error-swallowed"
+					if ek != gen.ErrPlain {
+						key += "/" + ekName
+					}
+					c.Violation(key, fmt.Sprintf("the source failed at its call %d (error value: %s) but the compressing reader ended with io.EOF [%s, source %d bytes]", k, ekName, o, len(data)), det)
+				case ek == gen.ErrBareUnexpectedEOF && errors.Is(res.err, io.ErrUnexpectedEOF):
+					// passed through
 				case !isInjected(res.err, src.Errs):
 					// (a failing call that still filled the request is indistinguishable from a success for
 					// io.ReadFull; the persistent fault then shows up with a later call's error value)
 					c.Violation("source-error-replaced", fmt.Sprintf("the source failed at its call %d with %v but the compressing reader returned %v", k, want, res.err), det)
 				}
-				c.Cell(fmt.Sprintf("%s/src%d/source-fault/data=%v/transient=%v", o.String(), len(data), withData, variant == 2))
+				c.Cell(fmt.Sprintf("%s/src%d/source-fault/data=%v/transient=%v/%s", o.String(), len(data), withData, variant == 2, ekName))
 			}
 		}
 	}
